@@ -689,7 +689,7 @@ def apply_event(objs, ev, params=NOPARAMS):
     elif name == "probeall":
         c = objs[t]
         for m in range(c.n_modes - len(c._internal_modes)):
-            c.ps(m, phase((2 * (m + 1) + 1) % 8))
+            c.ps(mode_arg(m), phase((2 * (m + 1) + 1) % 8))
     elif name == "edit":
         objs[t].ps(0, phase(2))
     elif name == "unpack":
